@@ -170,6 +170,9 @@ type Diag struct {
 	// OnPoint, if set, is called (outside the lock) for every point a log node sees.
 	OnPoint func(prefix string, p Pt)
 	OnBatch func(prefix string, b Bt)
+	// OnBatchRaw, if set, is also handed the message itself (to look at it again later: an emitted message
+	// must not change after it was emitted)
+	OnBatchRaw func(prefix string, b Bt, raw edge.BufferedBatchMessage)
 	// Queries started by batch query nodes
 	Queries []string
 }
@@ -294,9 +297,13 @@ func (n *nodeDiag) LogBatchData(key, prefix string, data edge.BufferedBatchMessa
 	}
 	s.Items = append(s.Items, Item{B: &b})
 	f := n.d.OnBatch
+	fr := n.d.OnBatchRaw
 	n.d.mu.Unlock()
 	if f != nil {
 		f(prefix, b)
+	}
+	if fr != nil {
+		fr(prefix, b, data)
 	}
 }
 func (n *nodeDiag) UDFLog(s string) {}
